@@ -79,6 +79,12 @@ def snap(o):
         for i, c in enumerate(o.propositions):
             if c is o.condition:
                 cond = i
+    if isinstance(o, pg.XNor) and hasattr(o, "xnor_propositions"):
+        # the half that still holds the propositions as given is AtMost(1, props).negate() = "+(props) >= 2"
+        want = sorted(id(x) for x in o.xnor_propositions)
+        match = [i for i, c in enumerate(o.propositions) if not is_var(c) and sorted(id(x) for x in c.propositions) == want]
+        best = [i for i in match if int(o.propositions[i].sign) == 1 and int(o.propositions[i].value) == 2]
+        cond = (best or match or [0])[0]
     dfl = getattr(o, "default", None) or []
     prio = getattr(o, "prio", None)
     return {"k": "node", "id": o.id, "gen": bool(o.generated_id),
